@@ -5,7 +5,7 @@ INVARIANT Inv RevRev
 PROPERTY CloneIndependent FailedPushUnchanged
 ACTION_CONSTRAINT Emit
 CONSTANTS
-  MaxLen = 4
+  MaxLen = 3
   Rich = FALSE
   KindsUsed <- KindsAll
   LayoutsUsed <- LayoutsAll
